@@ -157,6 +157,11 @@ def monitor(case):
                         return tag + 'page %#x is on device %d, expected one of %s' % (k[1], p[3], tgt)
                 if op == 'mig' and (o['ret'][0] != pages[rng[0]][2] or o['ret'][1] != prev_pages[rng[0]][2]):
                     return tag + 'migration preparation reported the wrong physical pages'
+                if op in ('remap', 'dist') and not case.get('buddy') and prev_devs is not None and len(devs) == len(prev_devs):
+                    # conservation: the previous physical pages of the range go back to their devices
+                    delta = sum(d['nfree'] for d in devs) - sum(d['nfree'] for d in prev_devs)
+                    if delta != 0:
+                        return tag + 'the call lost %d physical pages (free + live is no longer the whole device)' % (-delta)
         elif op == 'rmfreed':
             pass
         extra = changed - allowed
